@@ -162,3 +162,10 @@ Definition ravel_case_ok (c : list Z * list (list Z) * list Z) : bool :=
 Definition offset_case_ok (c : Z * list (list Z) * list Z) : bool :=
   let '(ng, rows, impl) := c in
   list_z_eqb (concat (map (fun rc => map (offset_code ng (fst rc)) (snd rc)) (zip_pos rows 0))) impl.
+
+(* ---- quantile cases (K2) ---- *)
+From Flox Require Import Quantile.
+Definition quantile_case_ok (c : bool * Z * Z * list (list Z) * list Z * list xq) : bool :=
+  let '(skipna, qn, qd, groups, nans, impl) := c in
+  forallb2 xq_close (flox_quantile skipna qn qd groups nans) impl
+  && forallb2 xq_close (spec_quantile skipna qn qd groups nans) impl.
